@@ -1,4 +1,6 @@
 """C21 — reader positions: ownership of the position state, order of position capture, fresh models per read (thin, structural part only)."""
+CANON = True
+
 import ast
 
 from .. import pyq, readerq
@@ -49,10 +51,13 @@ def check_positions(ctx, src, rq=None):
               b == ["model.start_line, model.start_column = start", "model.end_line, model.end_column = self.pos", "return model.replace(model)"], "POS-FILL", f"{HR}|fill_pos", f"fill_pos is {b}", HR, fp.lineno,
               witness="start and end are swapped / children do not inherit positions", detail="start from argument, end from self.pos, then replace(model)")
     tp = rq.methods["try_parse_one_form"][1]
-    order = [norm(s) for s in ast.walk(tp) if isinstance(s, (ast.Assign, ast.Expr)) and norm(s) in ("c = self.getc()", "start = self._pos", "model = handler(self, c) if handler else self.read_default(c)", "model = self.fill_pos(model, start)")]
-    lines = {norm(s): s.lineno for s in ast.walk(tp) if isinstance(s, ast.Assign)}
-    ks = ["c = self.getc()", "start = self._pos", "model = handler(self, c) if handler else self.read_default(c)", "model = self.fill_pos(model, start)"]
-    ctx.check(all(k in lines for k in ks) and [lines[k] for k in ks] == sorted(lines[k] for k in ks), "POS-FILL", f"{HR}|try_parse_one_form|capture order",
+    pos = lambda n: (n.lineno, n.col_offset)
+    getc = pyq.contains(tp, lambda n: isinstance(n, ast.Call) and dotted(n.func) == "self.getc")
+    cap = pyq.contains(tp, lambda n: isinstance(n, ast.Assign) and dotted(n.value) == "self._pos" and isinstance(n.targets[0], ast.Name))
+    sv = cap.targets[0].id if cap is not None else None
+    disp = [n for n in ast.walk(tp) if isinstance(n, ast.Call) and (dotted(n.func) == "self.read_default" or (isinstance(n.func, ast.Name) and n.args and isinstance(n.args[0], ast.Name) and n.args[0].id == "self"))]
+    fill = pyq.contains(tp, lambda n: isinstance(n, ast.Call) and dotted(n.func) == "self.fill_pos" and len(n.args) == 2 and isinstance(n.args[1], ast.Name) and n.args[1].id == sv)
+    ctx.check(getc is not None and cap is not None and len(disp) >= 2 and fill is not None and pos(getc) < pos(cap) < min(map(pos, disp)) and max(map(pos, disp)) < pos(fill), "POS-FILL", f"{HR}|try_parse_one_form|capture order",
               "the start position must be captured after the first character is consumed and before the handler runs; the end after it", HR, tp.lineno, detail="getc; start; handler; fill_pos")
     rp = src.py("hy/models.py").func("Object.replace")
     ctx.check(rp is not None and "if not hasattr(self, attr) and hasattr(other, attr): setattr(self, attr, getattr(other, attr))" in flat(rp), "POS-FILL", "hy/models.py|Object.replace",
